@@ -118,3 +118,27 @@ Qed.
 
 Example C20_varint_example : AppendVarint [] 300 = [172; 2] /\ ConsumeVarint [172; 2; 9] = (300, 2).
 Proof. split; vm_compute; reflexivity. Qed.
+
+(* length-delimited framing: the speculative-length shifting algorithm (proto/binary FinishSpeculativeLength,
+   modelled statement by statement in model/ProtoSpecLen.v) writes exactly varint(|payload|) in front of the
+   payload, for EVERY prefix, payload and content of the spare capacity — all sizes, hence every 127/128,
+   16383/16384, ... boundary at every nesting depth at once *)
+From DG Require Import ProtoSpecLen ProtoSpecLenProofs.
+Theorem C20_speculative_length_correct :
+  forall prefix x payload junk, (length payload < 2 ^ 31)%nat -> (9 <= length junk)%nat ->
+  finish_spec (prefix ++ [x] ++ payload) junk (length prefix) = prefix ++ varint_enc (Z.of_nat (length payload)) ++ payload.
+Proof. exact finish_spec_correct. Qed.
+Print Assumptions C20_speculative_length_correct.
+
+Theorem C20_speculative_length_nested :
+  forall p1 x1 p2 x2 payload j1 j2,
+  let inner := varint_enc (Z.of_nat (length payload)) ++ payload in
+  (length payload < 2 ^ 31)%nat -> (length (p2 ++ inner) < 2 ^ 31)%nat -> (9 <= length j1)%nat -> (9 <= length j2)%nat ->
+  finish_spec (finish_spec ((p1 ++ [x1] ++ p2) ++ [x2] ++ payload) j1 (length (p1 ++ [x1] ++ p2))) j2 (length p1)
+  = p1 ++ varint_enc (Z.of_nat (length (p2 ++ inner))) ++ p2 ++ inner.
+Proof. exact finish_spec_nested. Qed.
+Print Assumptions C20_speculative_length_nested.
+
+Example C20_speculative_length_example :
+  finish_spec ([8; 1] ++ [0] ++ repeat 7 200) (repeat 255 9) 2 = [8; 1] ++ [200; 1] ++ repeat 7 200.
+Proof. vm_compute. reflexivity. Qed.
